@@ -438,6 +438,9 @@ Proof.
   apply Hs, H.
 Qed.
 
+Lemma cons_inj {A} (a b : A) (l m : list A) : a :: l = b :: m -> a = b /\ l = m.
+Proof. intros H. injection H as H1 H2. split; assumption. Qed.
+
 Lemma enc_uv_prefix_cont : forall f v p s,
   enc_uv_loop f v = p ++ s -> s <> [] -> Forall cont p /\ (length p <= f)%nat.
 Proof.
@@ -447,9 +450,9 @@ Proof.
   - rewrite enc_uv_S in H. destruct (v <? 128).
     + apply singleton_prefix in H; [|exact Hs]. subst p. split; [constructor|cbn; lia].
     + destruct p as [|c p']; [split; [constructor|cbn; lia]|].
-      cbn [app] in H. injection H as Hc H. apply IH in H; [|exact Hs].
+      cbn [app] in H. apply cons_inj in H. destruct H as [Hc H]. apply IH in H; [|exact Hs].
       destruct H as [HF HL]. split.
-      * constructor; [|exact HF]. subst c. apply lor128_ge.
+      * constructor; [|exact HF]. subst c. unfold cont. apply lor128_ge.
       * cbn [length]. lia.
 Qed.
 
@@ -462,9 +465,9 @@ Proof.
   - rewrite enc_vf_S in H. destruct (wrap64 (N.shiftl x 7) =? 0).
     + apply singleton_prefix in H; [|exact Hs]. subst p. split; [constructor|cbn; lia].
     + destruct p as [|c p']; [split; [constructor|cbn; lia]|].
-      cbn [app] in H. injection H as Hc H. apply IH in H; [|exact Hs].
+      cbn [app] in H. apply cons_inj in H. destruct H as [Hc H]. apply IH in H; [|exact Hs].
       destruct H as [HF HL]. split.
-      * constructor; [|exact HF]. subst c. apply lor128_ge.
+      * constructor; [|exact HF]. subst c. unfold cont. apply lor128_ge.
       * cbn [length]. lia.
 Qed.
 
@@ -619,3 +622,152 @@ Theorem dec_flag_cons f rest : dec_flag (f :: rest) = Ok f rest.
 Proof. reflexivity. Qed.
 Theorem dec_flag_nil : dec_flag [] = Eof.
 Proof. reflexivity. Qed.
+
+(* ------------------------------------------------------------------ *)
+(* f. size functions                                                   *)
+(* ------------------------------------------------------------------ *)
+Lemma size_le_iff v k : N.size v <= k <-> v < 2^k.
+Proof.
+  destruct (N.eq_dec v 0) as [->|Hz].
+  - cbn [N.size]. split; intros _; [apply pow2_pos|lia].
+  - rewrite N.size_log2 by exact Hz. rewrite N.le_succ_l. symmetry. apply N.log2_lt_pow2. lia.
+Qed.
+
+Fixpoint ulen (f : nat) (k sz : N) : nat :=
+  match f with O => 1%nat | S f' => if sz <=? k then 1%nat else S (ulen f' (k + 7) sz) end.
+
+Lemma div_pow_ltb v j : (v / 2^j <? 128) = (N.size v <=? j + 7).
+Proof.
+  pose proof (pow2_pos j) as Hp.
+  assert (H2 : 2^(j + 7) = 2^j * 128) by (rewrite N.pow_add_r; reflexivity).
+  destruct (N.leb_spec (N.size v) (j + 7)) as [Hs|Hs].
+  - apply size_le_iff in Hs. apply N.ltb_lt. apply N.div_lt_upper_bound; lia.
+  - apply N.ltb_ge. apply N.div_le_lower_bound; [lia|].
+    destruct (N.le_gt_cases (2^j * 128) v) as [Hle|Hgt]; [exact Hle|exfalso].
+    rewrite <- H2 in Hgt. apply size_le_iff in Hgt. lia.
+Qed.
+
+Lemma enc_uv_len : forall f j v, length (enc_uv_loop f (v / 2^j)) = ulen f (j + 7) (N.size v).
+Proof.
+  induction f as [|f IH]; intros j v.
+  - reflexivity.
+  - rewrite enc_uv_S. cbn [ulen]. rewrite div_pow_ltb.
+    destruct (N.size v <=? j + 7); [reflexivity|].
+    cbn [length]. f_equal. rewrite shr7.
+    change 128 with (2^7). rewrite N.div_div by (apply N.pow_nonzero; lia).
+    rewrite <- N.pow_add_r. apply IH.
+Qed.
+
+Definition uv_size_ok (sz : N) : bool :=
+  let n := nth (64 - N.to_nat sz) uv_sizes 0%nat in
+  Nat.eqb n (ulen 8 7 sz) && Nat.leb 1 n && Nat.leb n 9.
+Lemma uv_size_sweep : forallb uv_size_ok (map N.of_nat (seq 0 65)) = true.
+Proof. vm_compute. reflexivity. Qed.
+
+Theorem uvarint_size v : v < W64 ->
+  length (enc_uv v) = uv_size v /\ (1 <= uv_size v <= 9)%nat.
+Proof.
+  intros Hv. unfold enc_uv, uv_size, clz64.
+  pose proof (enc_uv_len 8 0 v) as HL. change (2^0) with 1 in HL. rewrite N.div_1_r in HL.
+  change (0 + 7) with 7 in HL. rewrite HL.
+  assert (Hsz : N.size v <= 64) by (apply size_le_iff; exact Hv).
+  pose proof uv_size_sweep as H. rewrite forallb_forall in H.
+  specialize (H (N.size v) (in_range_list 65 _ ltac:(lia))). unfold uv_size_ok in H.
+  cbv zeta in H.
+  apply andb_true_iff in H. destruct H as [H H3]. apply andb_true_iff in H. destruct H as [H1 H2].
+  apply Nat.eqb_eq in H1. apply Nat.leb_le in H2. apply Nat.leb_le in H3.
+  rewrite <- H1. auto.
+Qed.
+
+Theorem varint_size v : length (enc_sv v) = sv_size v /\ (1 <= sv_size v <= 9)%nat.
+Proof. unfold enc_sv, sv_size. apply uvarint_size. apply zz_enc_u_lt, to_u64_lt. Qed.
+
+(* trailing zeros *)
+Lemma pow2_S k : 2^(N.of_nat (S k)) = 2 * 2^(N.of_nat k).
+Proof. replace (N.of_nat (S k)) with (N.succ (N.of_nat k)) by lia. apply N.pow_succ_r'. Qed.
+
+Lemma ctz_pos_ge : forall k p, (k <= ctz_pos p)%nat <-> (N.pos p) mod 2^(N.of_nat k) = 0.
+Proof.
+  induction k as [|k IH]; intros p.
+  - change (2^(N.of_nat 0)) with 1. rewrite N.mod_1_r. split; intros _; [reflexivity|lia].
+  - rewrite pow2_S. pose proof (pow2_pos (N.of_nat k)) as Hm. set (m := 2^(N.of_nat k)) in *.
+    destruct p as [q|q|].
+    + cbn [ctz_pos]. change (N.pos q~1) with (2 * N.pos q + 1). split; intros H; exfalso; lia.
+    + cbn [ctz_pos]. change (N.pos q~0) with (2 * N.pos q).
+      rewrite N.mul_mod_distr_l by lia. specialize (IH q). fold m in IH. lia.
+    + cbn [ctz_pos]. rewrite N.mod_small by lia. split; intros H; exfalso; lia.
+Qed.
+
+Lemma ctz64_ge x k : (k <= 64)%nat -> (k <= ctz64 x)%nat <-> x mod 2^(N.of_nat k) = 0.
+Proof.
+  intros Hk. destruct x as [|p].
+  - cbn [ctz64]. rewrite N.mod_0_l by (apply N.pow_nonzero; lia). split; intros _; [reflexivity|exact Hk].
+  - cbn [ctz64]. apply ctz_pos_ge.
+Qed.
+
+Lemma ctz64_le x : x < W64 -> (ctz64 x <= 64)%nat.
+Proof.
+  intros Hx. destruct x as [|p]; [cbn; lia|]. cbn [ctz64].
+  destruct (Nat.le_gt_cases (ctz_pos p) 64) as [H|H]; [exact H|exfalso].
+  assert (H65 : (65 <= ctz_pos p)%nat) by lia.
+  apply ctz_pos_ge in H65. change (2^(N.of_nat 65)) with 36893488147419103232 in H65.
+  unfold W64 in Hx. lia.
+Qed.
+
+Lemma wrap_shift_zero x k : (k <= 64)%nat ->
+  (wrap64 (N.shiftl x (N.of_nat k)) =? 0) = (64 - k <=? ctz64 x)%nat.
+Proof.
+  intros Hk. apply eq_iff_eq_true. rewrite N.eqb_eq, Nat.leb_le.
+  rewrite ctz64_ge by lia.
+  unfold wrap64. rewrite N.shiftl_mul_pow2.
+  replace W64 with (2^(N.of_nat (64 - k)) * 2^(N.of_nat k))
+    by (rewrite <- N.pow_add_r, W64_pow; f_equal; lia).
+  rewrite N.mul_mod_distr_r by (apply N.pow_nonzero; lia).
+  pose proof (pow2_pos (N.of_nat k)) as Hp.
+  split; intros H; [|rewrite H; reflexivity].
+  apply N.mul_eq_0 in H. destruct H as [H|H]; [exact H|lia].
+Qed.
+
+Fixpoint vlen (f : nat) (k c : nat) : nat :=
+  match f with O => 1%nat | S f' => if (k <=? c)%nat then 1%nat else S (vlen f' (k - 7) c) end.
+
+Lemma enc_vf_len : forall f i x, (i + f = 8)%nat ->
+  length (enc_vf_loop f (wrap64 (N.shiftl x (N.of_nat (7 * i))))) = vlen f (57 - 7 * i) (ctz64 x).
+Proof.
+  induction f as [|f IH]; intros i x Hi.
+  - reflexivity.
+  - rewrite enc_vf_S. cbn [vlen].
+    assert (Hnext : wrap64 (N.shiftl (wrap64 (N.shiftl x (N.of_nat (7 * i)))) 7)
+                    = wrap64 (N.shiftl x (N.of_nat (7 * S i)))).
+    { unfold wrap64. rewrite !N.shiftl_mul_pow2.
+      rewrite N.mul_mod_idemp_l by (unfold W64; lia).
+      rewrite <- N.mul_assoc, <- N.pow_add_r. do 3 f_equal. lia. }
+    rewrite Hnext. rewrite wrap_shift_zero by lia.
+    replace (64 - 7 * S i)%nat with (57 - 7 * i)%nat by lia.
+    destruct (57 - 7 * i <=? ctz64 x)%nat; [reflexivity|].
+    cbn [length]. f_equal. rewrite IH by lia. f_equal. lia.
+Qed.
+
+Definition vf_size_ok (c : nat) : bool :=
+  let n := nth c vf_sizes 0%nat in
+  Nat.eqb n (vlen 8 57 c) && Nat.leb 1 n && Nat.leb n 9.
+Lemma vf_size_sweep : forallb vf_size_ok (seq 0 65) = true.
+Proof. vm_compute. reflexivity. Qed.
+
+Theorem varfloat_raw_size x : x < W64 ->
+  length (enc_vf_raw x) = vf_size_raw x /\ (1 <= vf_size_raw x <= 9)%nat.
+Proof.
+  intros Hx. unfold enc_vf_raw, vf_size_raw.
+  pose proof (enc_vf_len 8 0 x eq_refl) as HL.
+  change (N.of_nat (7 * 0)) with 0 in HL. rewrite N.shiftl_0_r in HL.
+  unfold wrap64 in HL. rewrite N.mod_small in HL by exact Hx.
+  change (57 - 7 * 0)%nat with 57%nat in HL. rewrite HL.
+  pose proof (ctz64_le x Hx) as Hc.
+  pose proof vf_size_sweep as H. rewrite forallb_forall in H.
+  specialize (H (ctz64 x)). unfold vf_size_ok in H. cbv zeta in H.
+  assert (Hin : In (ctz64 x) (seq 0 65)) by (apply in_seq; lia).
+  apply H in Hin.
+  apply andb_true_iff in Hin. destruct Hin as [Hin H3]. apply andb_true_iff in Hin. destruct Hin as [H1 H2].
+  apply Nat.eqb_eq in H1. apply Nat.leb_le in H2. apply Nat.leb_le in H3.
+  rewrite <- H1. auto.
+Qed.
